@@ -271,3 +271,91 @@ def statements(script):
             yield it
         elif isinstance(it, For):
             yield from it.body
+
+
+# ---------------------------------------------------------------- transformers
+
+def map_flat(flat, fn):
+    """Copy of a surface expression with every primary p replaced by fn(p) (fn sees primaries
+    bottom-up; it returns a primary)."""
+    ops = []
+    for o in flat.operands:
+        p = o.prim
+        if isinstance(p, Paren):
+            p = Paren(map_flat(p.e, fn))
+        elif isinstance(p, Fn):
+            p = Fn(p.name, map_flat(p.e, fn))
+        elif isinstance(p, Idx):
+            p = Idx(p.name, map_flat(p.index, fn))
+        ops.append(Operand(o.signs, fn(p)))
+    return Flat(ops, list(flat.ops))
+
+
+def map_val(v, fn):
+    if isinstance(v, Flat):
+        return map_flat(v, fn)
+    if isinstance(v, ListVal):
+        return ListVal([map_val(i, fn) for i in v.items])
+    return v
+
+
+def map_args(args, fn):
+    if args is None:
+        return None
+    return Args([map_val(v, fn) for v in args.pos], [[k, map_val(v, fn)] for k, v in args.kwargs], args.trailing_comma)
+
+
+def map_stmt(st, fn):
+    return Stmt(st.op, map_args(st.args, fn), [map_flat(m, fn) for m in st.modes], st.lbr, st.rbr)
+
+
+def map_script(script, fn, item_fn=None):
+    """Copy of a script with fn applied to every primary of every expression; item_fn(item) may
+    return a replacement item (or None to keep the mapped item)."""
+    items = []
+    for it in script.items:
+        if item_fn is not None:
+            r = item_fn(it)
+            if r is not None:
+                items.append(r)
+                continue
+        if isinstance(it, ScalarDecl):
+            items.append(ScalarDecl(it.vtype, it.name, map_val(it.init, fn)))
+        elif isinstance(it, ArrayDecl):
+            items.append(ArrayDecl(it.vtype, it.name, it.shape, [[map_flat(e, fn) for e in r] for r in it.rows]))
+        elif isinstance(it, ArrayParamDecl):
+            items.append(ArrayParamDecl(it.vtype, it.name, it.shape, it.pname))
+        elif isinstance(it, Stmt):
+            items.append(map_stmt(it, fn))
+        elif isinstance(it, For):
+            h = it.header
+            if isinstance(h, ForList):
+                h = ForList([map_val(v, fn) for v in h.vals], h.lbr, h.rbr)
+            items.append(For(it.vtype, it.var, h, [map_stmt(s, fn) for s in it.body]))
+    meta = []
+    for m in (script.target, script.ptype):
+        meta.append(None if m is None else Meta(m.name, map_args(m.args, fn)))
+    return Script(script.name, script.version, meta[0], meta[1], list(script.includes), items)
+
+
+def number_literal(x):
+    """Primary (bracketed when signed) denoting the Python number x exactly."""
+    import numbers
+    if isinstance(x, bool):
+        raise ValueError("bool is not a number literal")
+    if isinstance(x, numbers.Integral):
+        x = int(x)
+        if x < 0:
+            return Paren(Flat([Operand("-", Num("int", str(-x)))], []))
+        return Paren(Flat([Operand("", Num("int", str(x)))], []))
+    if isinstance(x, numbers.Real):
+        x = float(x)
+        r = repr(abs(x))
+        if "inf" in r or "nan" in r:
+            raise ValueError("non-finite")
+        sign = "-" if (x < 0 or (x == 0 and str(x).startswith("-"))) else ""
+        return Paren(Flat([Operand(sign, Num("float", r))], []))
+    c = complex(x)
+    re, im = c.real, c.imag
+    txt = "%s%s%sj" % (repr(re), "-" if (im < 0 or str(im).startswith("-")) else "+", repr(abs(im)))
+    return Paren(Flat([Operand("", Num("complex", txt))], []))
